@@ -1034,6 +1034,10 @@ class _HitenBase(_SerializeBase, ABC):
                         if self._is_computed_property(attr_name, value):
                             # Convert value to serializable format if needed
                             state[attr_name] = self._make_serializable(value)
+                        elif value is None and attr_name.startswith('_') and attr_name in state \
+                                and not self._is_service_related_attr(attr_name):
+                            # the live value was reset: do not save the copy an earlier load left in __dict__
+                            state[attr_name] = None
                     except (AttributeError, TypeError, ValueError):
                         # Skip attributes that can't be accessed or raise errors
                         continue
